@@ -147,6 +147,7 @@ type s2Mon struct {
 	held      int
 	holdMax   int
 	gate      chan struct{}
+	gateOnce  sync.Once
 	counts    map[string]int
 	trigKind  string
 	trigK     int
@@ -180,6 +181,8 @@ func (m *s2Mon) event(kind string) {
 		close(m.trig)
 	}
 }
+
+func (m *s2Mon) openGate() { m.gateOnce.Do(func() { close(m.gate) }) }
 
 func (m *s2Mon) forceTrigger() {
 	m.mu.Lock()
@@ -216,7 +219,7 @@ func (m *s2Mon) hook(pt mx.Point) {
 	if hold {
 		// in flight until the closer opens the gate; the guard only protects the
 		// harness against its own mistakes and makes the case inconclusive.
-		t := time.NewTimer(watchdog)
+		t := time.NewTimer(2 * watchdog)
 		select {
 		case <-m.gate:
 		case <-t.C:
@@ -455,7 +458,7 @@ func s2Case(t *testing.T, c *rep.Case, r *rep.Reporter, ys yieldStats, p *prng.R
 			for i := 0; i < 40 && verifkit.YieldCount() < n+4; i++ {
 				time.Sleep(50 * time.Microsecond)
 			}
-			close(mon.gate)
+			mon.openGate()
 		}()
 		defer func() {
 			if v := recover(); v != nil {
@@ -482,8 +485,12 @@ func s2Case(t *testing.T, c *rep.Case, r *rep.Reporter, ys yieldStats, p *prng.R
 	enqDone := make(chan struct{})
 	go func() { wg.Wait(); close(enqDone) }()
 
+	var yieldTrace []string
 	wit := func(extra map[string]any) map[string]any {
-		w := map[string]any{"scenario": sc, "plan": plan, "target_log": tail(lg.Strings(0), 120), "yield_trace_tail": tail(verifkit.Trace(), 60)}
+		w := map[string]any{"scenario": sc, "plan": plan, "target_log": tail(lg.Strings(0), 120), "yield_trace_tail": yieldTrace}
+		if yieldTrace == nil {
+			w["yield_trace_tail"] = tail(verifkit.Trace(), 60)
+		}
 		for k, v := range extra {
 			w[k] = v
 		}
@@ -493,7 +500,7 @@ func s2Case(t *testing.T, c *rep.Case, r *rep.Reporter, ys yieldStats, p *prng.R
 	undecided := ""
 	enqOK := waitDone(enqDone)
 	if !enqOK {
-		parked, dump := stuckAnalysis("internal/target/queue.", "queue.(*TimeWheel).Add")
+		parked, dump := stuckAnalysis("internal/target/queue.", "queue.(*TimeWheel).Add", lg.Len)
 		if parked {
 			c.Violation("S2/enqueue-never-returns", "an enqueuer is blocked forever inside the queue: every goroutine inside package queue is parked", wit(map[string]any{"goroutines": dump}))
 		} else {
@@ -503,8 +510,10 @@ func s2Case(t *testing.T, c *rep.Case, r *rep.Reporter, ys yieldStats, p *prng.R
 	}
 	quiescent := false
 	if enqOK && sc.CloseKind == "none" {
-		// no shutdown: wait until every recipient has a terminal outcome, then close
-		deadline := time.Now().Add(watchdog)
+		// no shutdown: release the held attempts once every message is committed,
+		// wait until every recipient has a terminal outcome, then close
+		mon.openGate()
+		deadline := time.Now().Add(currentWatchdog())
 		for {
 			if s2AllTerminal(sc, viewOf(lg)) {
 				quiescent = true
@@ -516,12 +525,7 @@ func s2Case(t *testing.T, c *rep.Case, r *rep.Reporter, ys yieldStats, p *prng.R
 			time.Sleep(300 * time.Microsecond)
 		}
 		if !quiescent {
-			// open the gate first so that held attempts are not what we look at
-			select {
-			case <-mon.gate:
-			default:
-			}
-			parked, dump := stuckAnalysis("internal/target/queue.", "queue.(*TimeWheel).tick")
+			parked, dump := stuckAnalysis("internal/target/queue.", "queue.(*TimeWheel).tick", lg.Len)
 			held := mon.heldNow()
 			if parked && held == 0 {
 				c.Violation("S2/message-never-dispatched", "no shutdown requested, every goroutine of the queue is parked and a committed message (or a scheduled retry) has not been dispatched", wit(map[string]any{"goroutines": dump}))
@@ -537,13 +541,16 @@ func s2Case(t *testing.T, c *rep.Case, r *rep.Reporter, ys yieldStats, p *prng.R
 		}
 	}
 	if !waitDone(closeDone) {
-		parked, dump := stuckAnalysis("internal/target/queue.", "queue.(*Queue).Close")
+		parked, dump := stuckAnalysis("internal/target/queue.", "queue.(*Queue).Close", lg.Len)
 		if parked && mon.heldNow() == 0 {
 			c.Violation("S2/close-never-returns", "Queue.Close blocks forever: every goroutine inside package queue is parked", wit(map[string]any{"goroutines": dump}))
 		} else if undecided == "" {
 			undecided = "Queue.Close did not return within the watchdog, goroutines not all parked"
 		}
 	}
+	mon.openGate()
+	hits := ys.collect("s2", plan)
+	yieldTrace = tail(verifkit.Trace(), 60)
 	omu.Lock()
 	closed := closeReturned
 	cpanic := closePanic
@@ -596,7 +603,20 @@ func s2Case(t *testing.T, c *rep.Case, r *rep.Reporter, ys yieldStats, p *prng.R
 	view := viewOf(lg)
 	var pending []string // "msg rcpt" without terminal outcome
 	pendingMsgs := map[string]bool{}
-	if closed && enqOK {
+	inFlight := 0
+	for _, v := range view {
+		inFlight += v.Open
+	}
+	if closed && inFlight > 0 {
+		// The statement does not say in so many words that Close waits for the
+		// attempts in flight; the spool oracle below needs a stable log, so such a
+		// run is not judged.
+		r.Count("s2_attempts_in_flight_after_close", int64(inFlight))
+		if undecided == "" {
+			undecided = "Queue.Close returned while an attempt was still in flight: spool not judged"
+		}
+	}
+	if closed && enqOK && inFlight == 0 {
 		for _, ms := range sc.Enqueuers {
 			for _, m := range ms {
 				o := outs[m.ID]
@@ -614,9 +634,6 @@ func s2Case(t *testing.T, c *rep.Case, r *rep.Reporter, ys yieldStats, p *prng.R
 					}
 					pending = append(pending, m.ID+" "+rc)
 					pendingMsgs[m.ID] = true
-				}
-				if v != nil && v.Open > 0 {
-					c.Violation("S2/attempt-in-flight-after-close", fmt.Sprintf("Queue.Close returned while an attempt for %s was still in flight", m.ID), wit(nil))
 				}
 			}
 		}
@@ -663,7 +680,7 @@ func s2Case(t *testing.T, c *rep.Case, r *rep.Reporter, ys yieldStats, p *prng.R
 
 	// ---- restart: a fresh queue on the same directory delivers what is pending ----
 	restartDelivered := 0
-	if closed && enqOK && len(pending) > 0 && len(broken) == 0 && !c.Violated() {
+	if closed && enqOK && inFlight == 0 && len(pending) > 0 && len(broken) == 0 && !c.Violated() {
 		verifkit.ResetYield()
 		lg2 := mx.NewLog()
 		tgt2 := mx.NewTarget(fmt.Sprintf("c12t2-%d", c.Index), lg2)
@@ -672,7 +689,7 @@ func s2Case(t *testing.T, c *rep.Case, r *rep.Reporter, ys yieldStats, p *prng.R
 		if err != nil {
 			t.Fatal(err)
 		}
-		deadline := time.Now().Add(watchdog)
+		deadline := time.Now().Add(currentWatchdog())
 		var left []string
 		for {
 			v2 := viewOf(lg2)
@@ -711,10 +728,9 @@ func s2Case(t *testing.T, c *rep.Case, r *rep.Reporter, ys yieldStats, p *prng.R
 		}
 		restartDelivered = len(pending) - len(left)
 		for id, v := range viewOf(lg2) {
-			for rc, st := range v.Rcpt {
-				if st.Delivered > 1 {
-					c.Violation("S2/restart-delivered-twice", fmt.Sprintf("restarted queue delivered %s to %s %d times", id, rc, st.Delivered), wit(map[string]any{"restart_log": tail(lg2.Strings(0), 80)}))
-				}
+			if v.Starts > 1+v.TempRounds {
+				c.Violation("S2/dispatched-more-than-once", fmt.Sprintf("restarted queue: message %s had %d attempts, only one was scheduled", id, v.Starts), wit(map[string]any{"restart_log": tail(lg2.Strings(0), 80)}))
+				break
 			}
 		}
 	}
@@ -747,23 +763,12 @@ func s2Case(t *testing.T, c *rep.Case, r *rep.Reporter, ys yieldStats, p *prng.R
 	if closed {
 		r.Count("s2_closes_returned", 1)
 	}
-	hits := 0
-	if len(pending) == 0 || c.Violated() {
-		hits = ys.collect("s2", plan)
-	} else {
-		// ResetYield for the restart cleared the runtime's counters; they were
-		// collected before (see below) -- keep the order simple: collect here only
-		// when no restart ran.
-		hits = s2Hits
-	}
 	if c.Index%997 == 0 {
 		r.Sample(map[string]any{"scenario": sc, "plan": plan.String(), "target_events": lg.Len(), "pending": pending})
 	}
 	nontrivial := (plan.D == 0 || hits >= 1) && att >= 1
 	c.Done(sc.shape()+" "+plan.String(), nontrivial)
 }
-
-var s2Hits int
 
 func (m *s2Mon) heldNow() int {
 	// attempts that entered the hold and whose gate is still shut
